@@ -55,6 +55,7 @@ T.GROUPS['cnorm'] = [
     T.A([_a], cnorm(_a) >= 0, [cnorm(_a)]),
     T.A([_x, _a], z3.Implies(_x > 0, (cnorm(T.smul(_x, _a)) > 0) == (cnorm(_a) > 0)), [cnorm(T.smul(_x, _a))]),
     T.A([_a], cnorm(T.tr(_a)) == cnorm(_a), [cnorm(T.tr(_a))]),
+    T.A([_a], z3.Implies(cnorm(_a) > 0, cnorm(T.smul(T.divf(1, cnorm(_a)), _a)) == 1), [T.smul(T.divf(1, cnorm(_a)), _a)]),
     T.A([_x, _y], z3.Implies(z3.And(_x > 0, _y > 0), T.rmul(_x, _y) > 0), [T.rmul(_x, _y)]),
     T.A([_x, _y], z3.Implies(z3.And(_x > 0, _y > 0), T.divf(_x, _y) > 0), [T.divf(_x, _y)]),
 ]
